@@ -221,8 +221,46 @@ def d4(ctx, F):
     c03.d3(ctx, F)
 
 
+STATEFUL_TY = ("Mutex<", "RwLock<", "RefCell<", "::Cell<", "Atomic", "OnceLock<", "OnceCell<", "LazyLock<", "LocalKey<", "UnsafeCell<")
+
+
+def d5_stateless(ctx, F):
+    """every transform (encode/decode/compress/decompress) is a function of its argument and its immutable configuration: no interior-mutable
+    field on the transform's type, no thread-local / static scratch state in what it calls. State carried from one call to the next
+    (a reused buffer that is not reset on an error path, a cached dictionary ..) makes the output of a call depend on earlier calls."""
+    n = 0
+    for tr, m in ((ENC, "encode"), (DEC, "decode"), (COMPRESS, "compress"), (DECOMPRESS, "decompress")):
+        for im in sorted(F.impls_of(tr), key=lambda i: i["self"]):
+            name = im["self_adt"].rsplit("::", 1)[-1]
+            adt = F.adts.get(im["self_adt"])
+            b = F.body(im["items"][m])
+            ctx.touch(b)
+            n += 1
+            bad = []
+            if adt:
+                for v in adt.get("variants", []):
+                    for f in v["fields"]:
+                        if any(t in f["ty"] for t in STATEFUL_TY):
+                            bad.append("field %s: %s" % (f["name"], f["ty"][:60]))
+            for rb in F.region([b]).values():
+                if rb.crate != b.crate:
+                    continue
+                for c in rb.calls():
+                    nme = strip_generics(c.callee)
+                    if nme.startswith("std::thread::local::LocalKey::") or any(t in (c.self_ty or "") for t in ("LocalKey<",)):
+                        bad.append("thread-local state via %s in %s" % (c.name(), rb.path.rsplit("::", 2)[-2]))
+                for i, j, pl, rv, st in rb.assigns():
+                    for o in ([rv.get("op")] if rv.get("op") else []) + rv.get("ops", []):
+                        if isinstance(o, dict) and o.get("static") and any(t in o.get("ty", "") for t in STATEFUL_TY):
+                            bad.append("mutable static %s" % o["static"])
+            ctx.check(not bad, "C14.D5.stateless", "stateful-transform:%s::%s" % (name, m),
+                      "%s::%s keeps no state between calls (%s)" % (name, m, "; ".join(bad[:3]) or "no interior-mutable field, thread-local or static"), b.span)
+    ctx.floor("C14.D5.stateless.transforms", n, 14)
+
+
 def run(ctx):
     F = ctx.facts("quick")
+    d5_stateless(ctx, F)
     d1(ctx, F)
     decomp_whole_output(ctx, F)
     d2(ctx, F)
